@@ -189,19 +189,21 @@ theorem fold_entries : ∀ (brs : List (Nat × Nat)) (s s' : SwitchB),
 
 theorem cg_Switch_eq {x : LOp} {brs : List (Nat × Nat)} {d : Nat} {ci : CIns} (h : cg_Switch x brs d = some ci) :
     ∃ c, B.operand x = some (c, ()) ∧ ci = .switch c brs d := by
-  simp only [cg_Switch, bind, Option.bind] at h
-  split at h
-  case h_1 => cases h
-  rename_i s hs
+  -- independent of the order in which the arm computes the table, the fallback and the operand
+  unfold cg_Switch at h
   dsimp only at h
-  split at h
-  case h_1 => cases h
-  rename_i p hp
-  obtain ⟨c, u⟩ := p
-  have hc := fold_entries brs SwitchB.new s hs
-  simp only [SwitchB.emit, B.get_block, Option.some.injEq] at h
-  simp only [SwitchB.new, List.nil_append] at hc
-  exact ⟨c, hp, by rw [← h, hc]⟩
+  generalize hs : List.foldlM (m := Option) _ SwitchB.new brs = r at h
+  cases hop : B.operand x with
+  | none => cases r <;> simp [hop] at h
+  | some p =>
+    obtain ⟨c, u⟩ := p
+    cases r with
+    | none => simp [hop] at h
+    | some s =>
+      simp [hop, SwitchB.emit, B.get_block] at h
+      have hc := fold_entries brs SwitchB.new s hs
+      simp only [SwitchB.new, List.nil_append] at hc
+      exact ⟨c, rfl, by rw [← h, hc]⟩
 
 /-! ### the simulation -/
 
